@@ -59,9 +59,10 @@ class StreamRef(object):
     """Incremental acceptor.  `level_matcher(level)` returns a fresh matcher
     (models.regexref.CorrectMatcher / DefectMatcher) for a level's pattern."""
 
-    def __init__(self, level_matcher, slices_per_picture):
+    def __init__(self, level_matcher, slices_per_picture, slices_x=2):
         self.level_matcher = level_matcher
         self.slices_per_picture = slices_per_picture
+        self.hdr_slices_x = slices_x
         self.dead = None  # reason once a rule is broken
         self._new_sequence()
 
@@ -188,8 +189,6 @@ class StreamRef(object):
         self.first = False
         if kind == "EOS":
             self._end_sequence()
-
-    hdr_slices_x = 2
 
     def _picture_number(self, pn):
         if self.last_pn is not None and pn != (self.last_pn + 1) % M32:
